@@ -126,7 +126,7 @@ fn build_compare_op(
     let (_, type_g, _) = source.generics().split_for_impl();
     let this_ty_ident = source.ident();
     let this_ty: Type = parse_quote!(#this_ty_ident #type_g);
-    // `Self` cannot be used in the free function generated for `Eq`.
+    // `Self` is written out in the generics and the where-clause.
     let generics = expand_self(source.generics(), &this_ty);
     let (impl_g, _, _) = generics.split_for_impl();
     let trait_ = kind.to_path();
@@ -150,10 +150,17 @@ fn build_compare_op(
             quote!(),
             quote! {
                 const _: () = {
+                    // A method of an impl, so that `Self` can be used in `key = ...` expressions.
+                    trait __Check {
+                        fn __check(&self);
+                    }
                     #[allow(clippy::double_parens)]
                     #[allow(unused_parens)]
-                    fn __check #impl_g (__this: &#this_ty) #wheres {
-                        #body
+                    impl #impl_g __Check for #this_ty #wheres {
+                        fn __check(&self) {
+                            let __this = self;
+                            #body
+                        }
                     }
                 };
             },
